@@ -206,6 +206,14 @@ class CondDomain(Domain):
             t = stmt.targets[0]
             if isinstance(t, ast.Subscript) and \
                     norm(t.value) == self.a['cache']:
+                if ns.undef:
+                    self.problems.append((
+                        stmt, 'the cache that is pushed on the namespace '
+                        'receives an entry on the path on which the name '
+                        'turned out to be undefined: inside the else / elif '
+                        '/ unless part the name is then defined (as the '
+                        'stand-in value), so missing= no longer applies '
+                        'and <dtml-var name> prints the stand-in'))
                 ns = ns.copy()
                 ns.stored = True
             if isinstance(t, ast.Name):
